@@ -42,6 +42,9 @@ def main():
         "laplace_sl": [("laplace.single_layer(P1,P1,P1)", lambda: laplace.single_layer(p1, p1, p1).weak_form().to_dense()),
                        ("laplace.single_layer(P1seg,DP0,P1seg)", lambda: laplace.single_layer(p1seg, dp0, p1seg).weak_form().to_dense()),
                        ("laplace.double_layer(screen P1)", lambda: laplace.double_layer(p1s, p1s, p1s).weak_form().to_dense())],
+        # quick tier: one JIT of the regular + singular scalar assemblers only
+        "laplace_sl_only": [("laplace.single_layer(P1,P1,P1)", lambda: laplace.single_layer(p1, p1, p1).weak_form().to_dense()),
+                            ("laplace.single_layer(P1seg,DP0,P1seg)", lambda: laplace.single_layer(p1seg, dp0, p1seg).weak_form().to_dense())],
         "identity": [("sparse.identity(P1seg,P1,P1)", lambda: sparse.identity(p1seg, p1, p1).weak_form().to_dense()),
                      ("sparse.identity(RWG,RWG,SNC)", lambda: sparse.identity(rwg, rwg, snc).weak_form().to_dense())],
         "potential": [("potential.laplace.single_layer(P1)", lambda: laplace_pot.single_layer(p1, pts).evaluate(
